@@ -780,30 +780,56 @@ pub fn gen_scenario(rng: &mut Rng) -> Scenario {
     // some sessions have many bindings: one statement (a list of nested assignments) binds
     // 17..260 names w0.. to numbers, strings, lists and a few functions; later statements read
     // some of them. Stability is checked for every root key after every statement.
-    if g.rng.chance(1, 8) {
+    if g.rng.chance(1, 12) {
         let count = *g.rng.pick(&[17usize, 33, 65, 130, 260]);
+        // names: w0, w1 ... or families that share a long prefix, bound in shuffled order
+        let mut wnames: Vec<String> = match g.rng.below(3) {
+            0 => (0..count).map(|i| format!("w{}", i)).collect(),
+            1 => (0..count).map(|i| format!("{}{}", ["interest_", "acct_balance_", "w"][i % 3], i)).collect(),
+            _ => (0..count).map(|i| format!("quarterly_total_{}{}", (b'a' + (i % 26) as u8) as char, i / 26)).collect(),
+        };
+        if g.rng.chance(2, 3) {
+            for i in (1..wnames.len()).rev() {
+                let j = g.rng.usize_below(i + 1);
+                wnames.swap(i, j);
+            }
+        }
         let mut items = vec![];
         for i in 0..count {
             let v = match g.rng.below(6) {
                 0 => st(&format!("s{}", i)),
                 1 => E::List(vec![num(i as i64), num(1)]),
-                2 if i > 0 => lam(&["x"], bin("+", id("x"), id(&format!("w{}", g.rng.usize_below(i))))),
+                2 if i > 0 => lam(&["x"], bin("+", id("x"), id(&wnames[g.rng.usize_below(i)]))),
                 3 => E::Rec(vec![RK::Static("k".into(), num(i as i64))]),
                 _ => num(i as i64 * 3 + 1),
             };
-            items.push(assign(&format!("w{}", i), v));
+            items.push(assign(&wnames[i], v));
         }
-        stmts.push(SStmt { stmt: Stmt::Expr(E::List(items)), kind: "bind-many".into() });
-        let probe: Vec<E> = [0, 1, 15, 16, 31, 32, 63, 64, 127, 128, count - 1].iter().filter(|i| **i < count).map(|i| id(&format!("w{}", i))).collect();
+        // one statement binding them all, or one statement each (the first 40)
+        if g.rng.chance(1, 2) {
+            stmts.push(SStmt { stmt: Stmt::Expr(E::List(items)), kind: "bind-many".into() });
+        } else {
+            let rest = items.split_off(items.len().min(20));
+            for it in items {
+                stmts.push(SStmt { stmt: Stmt::Expr(it), kind: "bind-data".into() });
+            }
+            if !rest.is_empty() {
+                stmts.push(SStmt { stmt: Stmt::Expr(E::List(rest)), kind: "bind-many".into() });
+            }
+        }
+        let probe: Vec<E> = [0, 1, 15, 16, 31, 32, 63, 64, 127, 128, count - 1].iter().filter(|i| **i < count).map(|i| id(&wnames[*i])).collect();
         stmts.push(SStmt { stmt: Stmt::Expr(E::List(probe)), kind: "observe".into() });
         // a second batch after the first (growth past a threshold while names already exist)
         if g.rng.chance(1, 2) {
             let more: Vec<E> = (0..g.rng.range(1, 40) as usize).map(|i| assign(&format!("v{}", i), num(i as i64))).collect();
             stmts.push(SStmt { stmt: Stmt::Expr(E::List(more)), kind: "bind-many".into() });
         }
-        // rebinding one of them must still fail
-        let victim = format!("w{}", g.rng.usize_below(count));
-        stmts.push(SStmt { stmt: Stmt::Expr(assign(&victim, num(-1))), kind: "rebind".into() });
+        // rebinding any of them must still fail
+        for _ in 0..3 {
+            let victim = wnames[g.rng.usize_below(count)].clone();
+            let e = if g.rng.chance(1, 2) { assign(&victim, num(-1)) } else { E::List(vec![assign(&victim, num(-1))]) };
+            stmts.push(SStmt { stmt: Stmt::Expr(e), kind: "rebind".into() });
+        }
     }
     // some contain a deep chain of scopes: ten nested do-blocks reading the outermost local at
     // the bottom, or a late-bound read of a caller's parameter from ten calls further down
@@ -1082,6 +1108,25 @@ impl Model {
         // inside a function, a do-block, a callback, a conditional, a record written with the
         // name as its key, a function stored under that key
         if heavy {
+            // every root key evaluates, as a name, to its value
+            for (k, _) in &root {
+                if k == "inputs" || NAMES.contains(&k.as_str()) || !crate::hast::is_ident(k) {
+                    continue;
+                }
+                if let Some(Some(plain)) = o.keys.get(k) {
+                    if plain == UNREADABLE {
+                        continue;
+                    }
+                    let r = sess.probe(k);
+                    self.stats.inc("probes");
+                    if matches!(r.0, Status::Panic | Status::NotRun) {
+                        continue;
+                    }
+                    if r.0 != Status::Ok || r.1.as_deref() != Some(plain.as_str()) {
+                        o.context_mismatch.push(format!("`{}` gives {:?} but the binding is {:?}", k, r, plain));
+                    }
+                }
+            }
             for (k, _) in &root {
                 if k == "inputs" || !NAMES.contains(&k.as_str()) {
                     continue;
